@@ -61,6 +61,7 @@ struct fault {
 static struct fault faults[MAX_FAULTS];
 static int nfaults = 0;
 static int perm_readdir = 0;
+static long sim_clock_base = 1790000000L; /* $SIM_CLOCK_BASE: where the simulated wall clock starts (seconds) */
 static long stdout_fail_after = 0; /* the n-th and every later write to fd 1/2 fails with EPIPE (0 = never) */
 static long stdout_writes = 0;
 static uint64_t rng_state = 0x9E3779B97F4A7C15ULL;
@@ -324,6 +325,8 @@ static void do_init(void)
     const char *plan = getenv("SIM_PLAN");
     if (!root || !trace)
         return;
+    if (getenv("SIM_CLOCK_BASE"))
+        sim_clock_base = atol(getenv("SIM_CLOCK_BASE"));
     snprintf(sim_root, sizeof sim_root, "%s", root);
     sim_root_len = strlen(sim_root);
     while (sim_root_len > 1 && sim_root[sim_root_len - 1] == '/')
@@ -1632,7 +1635,7 @@ int clock_gettime(clockid_t id, struct timespec *ts)
     if (!active || id != CLOCK_REALTIME || !ts)
         return real_clock_gettime(id, ts);
     long ms = __sync_add_and_fetch(&sim_clock_ms, 1);
-    ts->tv_sec = 1790000000L + ms / 1000;
+    ts->tv_sec = sim_clock_base + ms / 1000;
     ts->tv_nsec = (ms % 1000) * 1000000L;
     return 0;
 }
